@@ -643,6 +643,12 @@ class Gen:
             e = self.effect(A, te)
             if e:
                 effs.append(["end", e])
+        # a condition stating exactly what a start effect establishes: over (start,end] / at end it holds thanks to
+        # the effect, over [start,end] / at start it must already hold before it
+        for w_, e in effs:
+            if w_ == "start" and e[1] == "assign" and e[3][0] in ("b", "i", "r", "o") and r.random() < 0.3:
+                c = (e[2] if e[3] == ["b", "T"] else ["not", e[2]]) if e[3][0] == "b" else ["eq", e[2], e[3]]
+                conds.append([r.choice(["oc", "oo", "end", "end", "cc", "co", "start"]), c])
         r.shuffle(effs)
         return ["dur", f"d{i}", A["params"], self.ival(A), ["conds"] + conds, ["effs"] + effs]
 
@@ -818,6 +824,15 @@ def shrink(payload):
                 yield with_sec(payload, "actions", acts[:i] + [a[:4] + [["effs"] + es[:j] + es[j + 1:]]] + acts[i + 1:])
     if sec(payload, "eps")[0] != "_":
         yield with_sec(payload, "eps", ["_"])
+    # fluents nobody mentions
+    body = sexp.dumps([sec(payload, "actions"), sec(payload, "goals")])
+    for ref in sec(payload, "fluents"):
+        if sexp.dumps(ref) not in body:
+            yield with_sec(with_sec(payload, "fluents", [f for f in sec(payload, "fluents") if f != ref]),
+                           "init", [iv for iv in sec(payload, "init") if iv[0][1] != ref])
+    objs = sec(payload, "objects")
+    if objs and not any(a[2] for a in acts) and '(o ' not in body and "(user " not in sexp.dumps(sec(payload, "fluents")):
+        yield with_sec(payload, "objects", [])
 
 
 MANIFEST = {
